@@ -30,9 +30,21 @@ def run(ctx):
     reps = [n for n in cfg.nodes if n.kind == 'stmt' and isinstance(n.ast, ast.Assign) and
             isinstance(n.ast.value, ast.Call) and dotted(n.ast.value.func) == 'np.repeat' and
             len(n.ast.value.args) >= 2 and any(k.arg == 'axis' for k in n.ast.value.keywords)]
-    ctx.require(reps, 'Sampler.posterior: resampling by np.repeat not found')
-    sel = reps[0].ast.value.args[1]
-    nid = reps[0].id
+    if reps:
+        sel = reps[0].ast.value.args[1]
+        nid = reps[0].id
+    else:
+        # resampling written as an index / mask selection: x = x[sel] under equal_weight
+        sels = [n for n in cfg.nodes if n.kind == 'stmt' and isinstance(n.ast, ast.Assign) and
+                isinstance(n.ast.value, ast.Subscript) and
+                isinstance(n.ast.targets[0], ast.Name) and
+                isinstance(n.ast.value.value, ast.Name) and
+                n.ast.value.value.id == n.ast.targets[0].id and
+                cfg.has_fact(n.id, 'equal_weight', True)]
+        ctx.require(sels, 'Sampler.posterior: resampling of the view not found')
+        reps = sels
+        sel = sels[0].ast.value.slice
+        nid = sels[0].id
     wname = None
     for r_ in walk_no_nested(f.node):
         if isinstance(r_, ast.Return) and isinstance(r_.value, ast.Tuple) and \
